@@ -282,8 +282,8 @@ def run_shard(spec, ctx):
             from vf.probes.algo import _cp
             from leaspy.utils.weighted_tensor import WeightedTensor
 
-            y_keep = y
-            for rep in range(3):
+            y_keep, mask_keep = y, mask
+            for rep in range(4):
                 try:
                     st = model.state.clone()
                     with st.auto_fork(None):
@@ -295,15 +295,37 @@ def run_shard(spec, ctx):
                             cur = st[v]
                             mu = st[f"{v}_mean"] if f"{v}_mean" in st.dag else torch.zeros(())
                             st[v] = (torch.zeros_like(cur) + mu + scale * torch.tensor(rng.normal(size=tuple(cur.shape)), dtype=cur.dtype)).to(cur.dtype)
-                        if noise and noise.startswith("gaussian") and rep != 1:
-                            # observations = current model values + a tiny residual
+                        expect_refusal = False  # (the memory-less rule of the individual std-devs is a plain standard deviation: no guard there)
+                        if noise and noise.startswith("gaussian") and rep == 3:
+                            # graded (relative, non 0/1) weights on the observed entries, ordinary dispersions: the noise level is the weighted RMS residual
+                            yw = st["y"]
+                            gw = torch.where(yw.weight.bool(), torch.tensor(rng.choice([0.5, 1.0, 1.5], size=tuple(yw.weight.shape)), dtype=torch.float32), torch.zeros(()))
+                            for v in sorted(ind):
+                                cur = st[v]
+                                st[v] = cur + 0.3 * torch.tensor(rng.normal(size=tuple(cur.shape)), dtype=cur.dtype)
+                            st["y"] = WeightedTensor(yw.value, gw)
+                            mask = gw.numpy().astype(np.float64)
+                            expect_refusal = False
+                            ctx.count("direct_msteps_with_graded_observation_weights")
+                        elif noise and noise.startswith("gaussian") and rep != 1:
+                            # observations = current model values + a tiny residual, on its own scale for every feature
                             yw = st["y"]
                             mod = st["model"]
                             mod = mod.value if isinstance(mod, WeightedTensor) else mod
-                            res = float(10 ** rng.uniform(-3.3, -1.8)) * torch.tensor(rng.normal(size=tuple(mod.shape)), dtype=mod.dtype)
+                            fscale = torch.tensor(10 ** rng.uniform(-3.3, -1.8, size=mod.shape[-1]), dtype=mod.dtype)
+                            res = fscale * torch.tensor(rng.normal(size=tuple(mod.shape)), dtype=mod.dtype)
                             newy = torch.where(yw.weight.bool(), mod + res, torch.zeros_like(mod))
                             st["y"] = WeightedTensor(newy, yw.weight)
                             y = newy.numpy().astype(np.float64)
+                            r2 = np.where(mask, res.numpy().astype(np.float64) ** 2, 0.0)
+                            var_ft = r2.sum(axis=(0, 1)) / np.maximum(mask.sum(axis=(0, 1)), 1)
+                            var_ref = var_ft if noise == "gaussian-diagonal" else np.array([r2.sum() / max(mask.sum(), 1)])
+                            if float(var_ref.min()) < 0.3e-5:
+                                expect_refusal = True
+                                if float(var_ref.max()) > 3e-5:
+                                    ctx.count("direct_msteps_partially_collapsed_noise")
+                        elif rep == 3:
+                            continue
                         burn = True
                         rec = {"k": 1, "n_burn_in_iter": 1, "burn_in_flag": burn, "params_before": {p_: _cp(st._values[p_]) for p_ in model.parameters_names}}
                         S = model.compute_sufficient_statistics(st)
@@ -311,13 +333,20 @@ def run_shard(spec, ctx):
                         model.update_parameters(st, S, burn_in=burn)
                         rec["params_after"] = {p_: _cp(st._values[p_]) for p_ in model.parameters_names}
                         ctx.count("direct_msteps_nearly_collapsed")
-                        on_step(rec, st, dict(case, direct_mstep="nearly collapsed dispersions", scale=scale))
+                        if expect_refusal:
+                            # documented domain of the std-dev rules: a variance below the guard (1e-5) in ANY component is a convergence error
+                            dead["v"] = True
+                            ctx.violation("mstep/collapsed-variance-accepted", "a maximisation step with a variance component clearly below the documented guard (1e-5) "
+                                          "was accepted instead of being refused with a convergence error", dict(case, direct_mstep="nearly collapsed dispersions", scale=scale),
+                                          noise_std=[float(x_) for x_ in np.atleast_1d(M.f64(rec["params_after"].get("noise_std", torch.zeros(())))[0]).reshape(-1)[:6]])
+                            break
+                        on_step(rec, st, dict(case, direct_mstep="nearly collapsed dispersions" if rep != 3 else "graded observation weights", scale=scale))
                 except LeaspyConvergenceError:
                     ctx.count("direct_msteps_refused_by_convergence_guard")
                 except Exception as e:
                     ctx.count("direct_mstep_skipped")
                     ctx.note(f"direct_mstep_skipped_{type(e).__name__}", str(e)[:200])
                 finally:
-                    y = y_keep
+                    y, mask = y_keep, mask_keep
         if i < 1:
             ctx.sample(case, limit=1)
